@@ -277,6 +277,18 @@ def vmdk_delta(rng, ctx, depth: int = 2, parent_config: str = "samedir", child_k
         prev_name, prev_dir = name, here
     top = vmdir / prev_name
     info["top_path"] = str(top)
+    if parent_config == "samedir" and rng.random() < 0.25:
+        # a case directory assembled from a content store: every file below the top descriptor is a symbolic link to a blob
+        # stored elsewhere under another name. Names in descriptors are relative to where the chain was found.
+        store = root / "content store"
+        store.mkdir()
+        for j, f_ in enumerate(sorted(p_ for p_ in vmdir.iterdir() if p_.is_file() and p_ != top)):
+            sub_ = store / f"{j:02d}"
+            sub_.mkdir()
+            blob = sub_ / f"blob-{rng.getrandbits(40):010x}"
+            f_.rename(blob)
+            f_.symlink_to(blob)
+        info["symlink_farm"] = True
     handles = []
     if child_kind == "embedded":
         fh = open(top, "rb")
